@@ -115,6 +115,11 @@ def gen_item(rng, n):
                 'extension_type': 'property-extension', 'scores': rng.sample([1.0, 10.0, 1e-06, 3.5, 1e22, 42], 3), 'label': pick_str(rng) or 'l'}}
             if rng.random() < 0.5:
                 next(iter(c['extensions'].values()))['hashes'] = gen_nested_hashes(rng)
+            if rng.random() < 0.5:
+                # member names whose order differs between code points and UTF-16 code units (RFC 8785 sorts by the latter):
+                # a supplementary-plane character against a BMP character at or above U+E000, at the first difference
+                names = ['\U0001f600', '\uff21', 'x_\uf9b5', 'x_\U00020bb7', '\ue000', '\U00010000', '\ud7ff', 'é', 'z', 'x_', '\uffff~', '\U0010ffff~']
+                next(iter(c['extensions'].values()))['names'] = {k: i for i, k in enumerate(rng.sample(names, rng.randrange(2, 7)))}
         elif rng.random() < 0.4:
             c['extensions'] = {'ntfs-ext': {'sid': pick_str(rng) or 's', 'alternate_data_streams': [{'name': 'second.stream', 'size': rng.randrange(10 ** 6)}]}}
             if rng.random() < 0.5:
@@ -258,7 +263,7 @@ class C06(Profile):
     owns_registries = True
     tiers = {'quick': 4000, 'thorough': 200000}
     wall_cap = {'quick': 900, 'thorough': 5 * 3600}
-    probes = ['disturbance_between_constructions', 'no_contributing_property_v4', 'hash_preference_applied', 'non_preferred_single_hash', 'non_preferred_several_hashes_first_wins', 'extension_with_float', 'custom_observable',
+    probes = ['utf16_vs_codepoint_member_order', 'disturbance_between_constructions', 'no_contributing_property_v4', 'hash_preference_applied', 'non_preferred_single_hash', 'non_preferred_several_hashes_first_wins', 'extension_with_float', 'custom_observable',
               'equal_contrib_different_noncontrib', 'near_miss_different_id', 'string_needing_escape', 'astral_or_bmp_boundary',
               'route_bundle_member', 'route_memory_store', 'uuid4_stream_differs', 'hash_names_respelled', 'falsy_contributing_value']
     rule = ('plans: 6-14 items (a 2.1 observable type incl. two registered custom observables, contributing and non-contributing values with '
@@ -511,6 +516,10 @@ class C06(Profile):
                         'non_preferred_single_hash' if len(it['c']['hashes']) == 1 else 'non_preferred_several_hashes_first_wins')
         if 'windows-pebinary-ext' in (it['c'].get('extensions') or {}):
             world.probe('extension_with_float')
+        for ext in (it['c'].get('extensions') or {}).values():
+            ks = sorted(ext.get('names', {})) if isinstance(ext, dict) else []
+            if ks != sorted(ks, key=lambda k: k.encode('utf-16-be', 'surrogatepass')):
+                world.probe('utf16_vs_codepoint_member_order')
         prefix = t + '--'
         if not got.startswith(prefix):
             raise Violation('id-exact', 'C06.id-prefix/%s' % t, dict(got=got))
